@@ -43,7 +43,6 @@ import (
 )
 
 const (
-	syncK            = 12               // the node's height at the start of a scenario
 	syncDeadline     = 40 * time.Second // the node must have reached the honest peer's height by then
 	syncDropDeadline = 20 * time.Second // a peer silent on a hash request (5 s time-out) is disconnected by then
 )
@@ -216,6 +215,7 @@ type syncScn struct {
 	f    *follower
 	srv  *netServer
 	t0   time.Time
+	K    int // the node's height at the start of the scenario
 
 	mu     sync.Mutex
 	log    []string
@@ -307,7 +307,7 @@ func (s *syncScn) peerStates() string {
 func (s *syncScn) height() int { return int(s.f.frontier().Height) }
 
 func newSyncScn(n *netCtx, name string, src []*nom.DetailedMomentum, K int, salt int64) *syncScn {
-	s := &syncScn{n: n, name: name, src: src, r: n.rnd(1000 + salt), t0: time.Now()}
+	s := &syncScn{n: n, name: name, src: src, r: n.rnd(1000 + salt), t0: time.Now(), K: K}
 	s.f = newFollower()
 	followerDirs.Store(s.f.dir, true)
 	if K > 1 {
@@ -391,6 +391,25 @@ func waitFor(d time.Duration, cond func() bool) bool {
 // disconnect an honest peer on the way.
 func (s *syncScn) expectSynced(target int, why string, honest ...*ethPeer) bool {
 	var lost *ethPeer
+	// one recognisable way to stall: the node downloaded the hash chain of an honest peer to the end (that peer sent the terminating
+	// empty pack) and then asks nobody for a single momentum of it. (A block request follows the hashes within a fraction of a second;
+	// the longest legitimate pause is the 9 s after which a request another peer sits on is handed to the next peer.)
+	hashOnly := func() *ethPeer {
+		for _, p := range honest {
+			if p == nil {
+				continue
+			}
+			p.mu.Lock()
+			is := p.blockReqsAtTerminator >= 0 && p.blockReqs == p.blockReqsAtTerminator && !p.closed
+			p.mu.Unlock()
+			if is {
+				return p
+			}
+		}
+		return nil
+	}
+	var hashOnlySince time.Time
+	var stuck *ethPeer
 	ok := waitFor(syncDeadline, func() bool {
 		for _, p := range honest {
 			if p != nil && p.isGone() {
@@ -398,8 +417,22 @@ func (s *syncScn) expectSynced(target int, why string, honest ...*ethPeer) bool 
 				return true
 			}
 		}
-		return s.height() >= target
+		if s.height() >= target {
+			return true
+		}
+		if p := hashOnly(); p == nil {
+			hashOnlySince = time.Time{}
+		} else if hashOnlySince.IsZero() {
+			hashOnlySince = time.Now()
+		} else if time.Since(hashOnlySince) > 15*time.Second {
+			stuck = p
+			return true
+		}
+		return false
 	})
+	if stuck != nil && s.height() < target {
+		ok = false
+	}
 	if lost != nil && s.height() < target {
 		_, reason := lost.dropped()
 		s.fail("honest-peer-dropped", "the node disconnected %s (%s), which answered every request like a node and delivered only genuine momentums (%s) — %s",
@@ -407,22 +440,13 @@ func (s *syncScn) expectSynced(target int, why string, honest ...*ethPeer) bool 
 		return false
 	}
 	if !ok {
-		// one recognisable way to stall: the node downloaded the hash chain of an honest peer to the end (that peer sent the
-		// terminating empty pack) and then asked nobody for a single momentum of it
 		diag := ""
-		for _, p := range honest {
-			if p == nil {
-				continue
-			}
-			p.mu.Lock()
-			if p.blockReqsAtTerminator >= 0 && p.blockReqs == p.blockReqsAtTerminator && !p.closed {
-				diag = " diagnosis=hash-download-completed-but-no-momentum-requested (" + p.role + " answered every hash request of the node's last synchronisation, " +
-					"including the terminating empty pack, and was not asked for a momentum afterwards)"
-			}
-			p.mu.Unlock()
+		if p := hashOnly(); p != nil {
+			diag = " diagnosis=hash-download-completed-but-no-momentum-requested (" + p.role + " answered every hash request of the node's last synchronisation, " +
+				"including the terminating empty pack, and has not been asked for a momentum since)"
 		}
-		s.fail("sync-stalled", "%v after the scenario started the node has not reached height %d of the honest peer that is connected to it (%s)%s",
-			syncDeadline, target, why, diag)
+		s.fail("sync-stalled", "%.0fs after the scenario started the node has not reached height %d of the honest peer that is connected to it (%s)%s",
+			time.Since(s.t0).Seconds(), target, why, diag)
 		return false
 	}
 	s.note("node reached height %d", s.height())
@@ -546,7 +570,7 @@ func silentScenario(stage string, lateH bool) syncScenario {
 			return
 		}
 		// B first, so that it exists when A's first request arrives; A's status makes A the best peer whatever the order
-		b = s.peer("B(bystander)", uint64(syncK), syncK, nil)
+		b = s.peer("B(bystander)", uint64(s.K), s.K, nil)
 		if !lateH {
 			h = s.peer("H(honest)", uint64(T), T, nil)
 		}
@@ -932,6 +956,20 @@ func (s *syncScn) deliveredBy(p *ethPeer) string {
 
 func p2pNetSync(n *netCtx, a *producer, src0 []*nom.DetailedMomentum) {
 	src := wire(src0[:netSrcHeight])
+	// the node's height at the start of every scenario of this run (all scenarios run in both tiers: they are independent nodes and
+	// run concurrently; the thorough tier runs them once per starting height)
+	Ks := []int{[]int{12, 7, 21}[int(n.seed%3+3)%3]}
+	if n.tier == "thorough" {
+		Ks = []int{12, 7, 21, 2}
+	}
+	for _, K := range Ks {
+		p2pNetSyncAt(n, src, K)
+	}
+	time.Sleep(300 * time.Millisecond)
+	followerDirs.Range(func(k, _ interface{}) bool { os.RemoveAll(k.(string)); return true })
+}
+
+func p2pNetSyncAt(n *netCtx, src []*nom.DetailedMomentum, K int) {
 	var scns []syncScenario
 	for _, st := range []string{"status", "ancestor-search", "ancestor-search-late", "hashes", "hashes-terminator", "blocks-first", "blocks-third"} {
 		scns = append(scns, silentScenario(st, false))
@@ -948,17 +986,6 @@ func p2pNetSync(n *netCtx, a *producer, src0 []*nom.DetailedMomentum) {
 	}
 	for i, k := range []string{"signature", "changes-hash", "producer", "timestamp", "data"} {
 		scns = append(scns, twoPeerBatchScenario(k, i%2 == 0), twoPeerBatchScenario(k, i%2 == 1))
-	}
-	if n.tier != "thorough" {
-		// quick tier: every silent stage, and a seed-dependent half of the other families (at least one of each)
-		r := n.rnd(3)
-		var keep []syncScenario
-		for i, sc := range scns {
-			if strings.HasPrefix(sc.name, "silent-") || i%2 == int(n.seed%2) || r.Intn(4) == 0 {
-				keep = append(keep, sc)
-			}
-		}
-		scns = keep
 	}
 	if n.scn != "" {
 		var keep []syncScenario
@@ -977,7 +1004,7 @@ func p2pNetSync(n *netCtx, a *producer, src0 []*nom.DetailedMomentum) {
 		go func(i int, sc syncScenario) {
 			defer wg.Done()
 			defer func() { <-sem }()
-			s := newSyncScn(n, sc.name, src, syncK, int64(i))
+			s := newSyncScn(n, sc.name, src, K, int64(i))
 			if s == nil {
 				return
 			}
@@ -997,8 +1024,6 @@ func p2pNetSync(n *netCtx, a *producer, src0 []*nom.DetailedMomentum) {
 		}(i, sc)
 	}
 	wg.Wait()
-	time.Sleep(300 * time.Millisecond)
-	followerDirs.Range(func(k, _ interface{}) bool { os.RemoveAll(k.(string)); return true })
 }
 
 var followerDirs sync.Map
